@@ -6,7 +6,7 @@
 (*                                                                         *)
 (* A configuration is the directive tree itself: a sequence of nodes       *)
 (*   [d |-> "source",  rules |-> <<addr..>>, c |-> <<node..>>]             *)
-(*   [d |-> "source_in", keys |-> <<addr..>>, c |-> ..]    (table)         *)
+(*   [d |-> "source_in", keys |-> <<addr..>>, tk |-> kind, fail |-> <<addr..>>, c |-> ..]  (table) *)
 (*   [d |-> "default_source", c |-> ..]                                    *)
 (*   destination / destination_in / default_destination   likewise        *)
 (*   [d |-> "reject", code |-> 550]          (0 = bare `reject` = 554)     *)
@@ -51,6 +51,9 @@ CONSTANTS Locals, Doms,      \* alphabet of the match rules / tables / rewrite m
           MaxDefects,        \* defect budget (missing default, undecided block, mixed level, reject+deliver_to)
           DefectOdds,        \* one configuration in DefectOdds+1 starts with that budget, the others with 0
           Salts,             \* set of spelling salts for the envelope sweep
+          MaxScopeMods,      \* modify directives in one scope
+          TableKinds,        \* table modules of source_in / destination_in
+          SenderCap,         \* envelopes of the sweep (sender classes); bounds without source blocks need few
           BareMaps,          \* rewrite maps may use local-part keys and domain-less values
           PrintExpected      \* rows carry the expected routing (Rule) of every envelope
 
@@ -142,9 +145,19 @@ Load(D, cfg) == IF LoadReasons(D, cfg) = {} THEN "ok" ELSE "error"
 (***************************************************************************)
 (* classes at which block b matches address a: 1 table, 2 full address,   *)
 (* 3 domain, 4 default                                                     *)
+(* A source_in / destination_in table [keys, tk, fail]: tk is the table module   *)
+(* (static, file, regexp without / with replacement, scripted); every kind lists *)
+(* exactly `keys`.  A lookup that FAILS (scripted table, keys in `fail`) is       *)
+(* logged and counts as "no match" for that address - and only for that address, *)
+(* whatever was looked up before (msgpipeline.go: srcBlockForAddr/rcptBlockForAddr).*)
+(* Deviation F33: table.regexp without replacement answered not-found for all.   *)
+TableHas(D, b, a) ==
+  /\ \E i \in 1..Len(b.keys) : Norm(D, b.keys[i]) = Norm(D, a)
+  /\ ~\E i \in 1..Len(b.fail) : Norm(D, b.fail[i]) = Norm(D, a)
+  /\ ~("F33" \in D /\ b.tk = "regexp")
+
 Cls(D, b, a) ==
-  (IF b.d \in {"source_in", "destination_in"}
-      /\ \E i \in 1..Len(b.keys) : Norm(D, b.keys[i]) = Norm(D, a) THEN {1} ELSE {})
+  (IF b.d \in {"source_in", "destination_in"} /\ TableHas(D, b, a) THEN {1} ELSE {})
   \cup (IF b.d \in {"source", "destination"}
       /\ \E i \in 1..Len(b.rules) : ~IsDomRule(b.rules[i]) /\ Norm(D, b.rules[i]) = Norm(D, a)
         THEN {2} ELSE {})
@@ -392,8 +405,8 @@ MapKeySeq == SetToSeq(Keys \cup BareKeys)
 MapKeyRank(k) == CHOOSE i \in 1..Len(MapKeySeq) : MapKeySeq[i] = k
 HasArgs(kind) == kind \in {"source", "destination", "source_in", "destination_in"}
 
-Frame(kind, lvl, depth, need) ==
-  [kind |-> kind, args |-> <<>>, need |-> need, lvl |-> lvl, mode |-> "new", c |-> <<>>,
+Frame(kind, lvl, depth, need, tk, fm) ==
+  [kind |-> kind, args |-> <<>>, need |-> need, tk |-> tk, fm |-> fm, lvl |-> lvl, mode |-> "new", c |-> <<>>,
    depth |-> depth, nblk |-> 0, hasDef |-> FALSE, dec |-> "none", ndel |-> 0, nrr |-> 0, mneed |-> 0,
    mbare |-> FALSE]
 
@@ -404,7 +417,7 @@ Filling == Len(Top.args) < Top.need \/ Top.mneed > 0      \* header or rewrite v
 Ready == Building /\ ~Filling
 
 GInit ==
-  /\ stack = <<Frame("root", "P", 0, 0)>>
+  /\ stack = <<Frame("root", "P", 0, 0, "", "")>>
   /\ cfg = <<>>
   /\ phase = "build"
   /\ \E b \in 0..DefectOdds : budget = IF b = 0 THEN MaxDefects ELSE 0
@@ -414,28 +427,32 @@ GInit ==
 
 (* `modify { replace_rcpt static { entry k v.. } }` as first directive of a block: *)
 (* choose the key and the number of values (1-to-N), then the values              *)
+LastC == Top.c[Len(Top.c)]
+SetLastC(f, n) == [f EXCEPT !.c = [f.c EXCEPT ![Len(f.c)] = n]]
 G_Modify ==
-  /\ Ready /\ Top.mode = "new" /\ nmod < MaxMod
-  /\ \/ Top.c = <<>>
-     \/ /\ Len(Top.c) = 1 /\ Top.c[1].d = "modify" /\ Len(Top.c[1].map) < MaxEntries
-  /\ \E k \in Keys \cup BareKeys, n \in 1..MaxVals, bare \in BOOLEAN :
+  /\ Ready /\ Top.mode = "new"            \* in mode "new" a frame holds modify directives only
+  /\ \E k \in Keys \cup BareKeys, n \in 1..MaxVals, bare \in BOOLEAN, fresh \in BOOLEAN :
        /\ bare => IsBare(k) /\ n <= Cardinality(BareKeys)   \* domain-less values only under a local-part key
-       /\ Top.c # <<>> => MapKeyRank(k) > MapKeyRank(Top.c[1].map[Len(Top.c[1].map)].k)
-       /\ SetTop([Top EXCEPT !.c = <<[d |-> "modify",
-                                      map |-> (IF Top.c = <<>> THEN <<>> ELSE Top.c[1].map)
-                                              \o <<[k |-> k, v |-> <<>>]>>]>>,
-                             !.mneed = n, !.mbare = bare])
-  /\ nmod' = IF Top.c = <<>> THEN nmod + 1 ELSE nmod
+       /\ IF fresh
+            THEN /\ nmod < MaxMod /\ Len(Top.c) < MaxScopeMods          \* one more `modify { }` in this scope
+                 /\ SetTop([Top EXCEPT !.c = Append(@, [d |-> "modify", map |-> <<[k |-> k, v |-> <<>>]>>]),
+                                       !.mneed = n, !.mbare = bare])
+                 /\ nmod' = nmod + 1
+            ELSE /\ Top.c # <<>> /\ Len(LastC.map) < MaxEntries          \* one more entry in the last one
+                 /\ MapKeyRank(k) > MapKeyRank(LastC.map[Len(LastC.map)].k)
+                 /\ SetTop([SetLastC(Top, [d |-> "modify", map |-> Append(LastC.map, [k |-> k, v |-> <<>>])])
+                              EXCEPT !.mneed = n, !.mbare = bare])
+                 /\ nmod' = nmod
   /\ UNCHANGED <<cfg, phase, budget, nopen, salt>>
 G_ModVal ==
   /\ Building /\ Top.mneed > 0
   /\ \E x \in IF Top.mbare THEN BareKeys ELSE CanonAddrs(RuleVars) :
-       LET m == Top.c[1].map
+       LET m == LastC.map
            e == m[Len(m)]
        IN /\ \A i \in 1..Len(e.v) : e.v[i] # x
-          /\ SetTop([Top EXCEPT !.c = <<[d |-> "modify",
-                                         map |-> [m EXCEPT ![Len(m)] = [e EXCEPT !.v = Append(@, x)]]]>>,
-                                !.mneed = @ - 1])
+          /\ SetTop([SetLastC(Top, [d |-> "modify",
+                                    map |-> [m EXCEPT ![Len(m)] = [e EXCEPT !.v = Append(@, x)]]])
+                       EXCEPT !.mneed = @ - 1])
   /\ UNCHANGED <<cfg, phase, budget, nmod, nopen, salt>>
 
 (* header arguments of source / destination / *_in *)
@@ -469,7 +486,10 @@ G_Open ==
                  /\ DefaultLast => ~Top.hasDef
        /\ \E need \in (IF kind \in {"source", "destination"} THEN 1..MaxRules
                         ELSE IF HasArgs(kind) THEN 1..MaxKeys ELSE {0}) :
-            /\ stack' = Append(stack, Frame(kind, IF Top.lvl = "P" THEN "S" ELSE "D", Top.depth, need))
+            \E tk \in (IF kind \in {"source_in", "destination_in"} THEN TableKinds ELSE {""}),
+               fm \in {"first", "last"} :
+            /\ tk # "scripted" => fm = "first"
+            /\ stack' = Append(stack, Frame(kind, IF Top.lvl = "P" THEN "S" ELSE "D", Top.depth, need, tk, fm))
             /\ HasArgs(kind) => nopen < MaxBlocks
             /\ nopen' = IF HasArgs(kind) THEN nopen + 1 ELSE nopen
   /\ UNCHANGED <<cfg, phase, budget, nmod, salt>>
@@ -492,7 +512,7 @@ G_Reroute ==
   /\ Ready /\ Top.lvl = "D" /\ Top.dec \in {"none", "deliver"} /\ Top.nrr = 0
   /\ Top.depth < MaxDepth
   /\ stack' = Append([stack EXCEPT ![Len(stack)] = [Top EXCEPT !.mode = "leafs"]],
-                     Frame("reroute", "P", Top.depth + 1, 0))
+                     Frame("reroute", "P", Top.depth + 1, 0, "", ""))
   /\ nopen < MaxBlocks /\ nopen' = nopen + 1
   /\ UNCHANGED <<cfg, phase, budget, nmod, salt>>
 (* defect: a handling directive next to source/destination blocks *)
@@ -506,7 +526,11 @@ G_MixedLeaf ==
 
 NodeOf(f) ==
   IF f.kind \in {"source", "destination"} THEN [d |-> f.kind, rules |-> f.args, c |-> f.c]
-  ELSE IF f.kind \in {"source_in", "destination_in"} THEN [d |-> f.kind, keys |-> f.args, c |-> f.c]
+  ELSE IF f.kind \in {"source_in", "destination_in"}
+    THEN [d |-> f.kind, keys |-> f.args, tk |-> f.tk, c |-> f.c,
+          \* a scripted table fails the lookups of its first / last key
+          fail |-> IF f.tk # "scripted" THEN <<>>
+                   ELSE IF f.fm = "first" THEN <<f.args[1]>> ELSE <<f.args[Len(f.args)]>>]
   ELSE [d |-> f.kind, c |-> f.c]
 
 G_Close ==
@@ -533,7 +557,8 @@ G_Close ==
 
 (* ---- the envelope sweep: every sender class x every recipient class,   *)
 (* two spellings per recipient class, spellings rotated by the salt        *)
-SenderSeq == SetToSeq(SenderReps)
+SenderSeq == LET all == SetToSeq(SenderReps)
+             IN SubSeq(all, 1, IF SenderCap < Len(all) THEN SenderCap ELSE Len(all))
 RcptSeq == SetToSeq(ClassReps)
 EnvSeq == SelectSeq(VOrder, LAMBDA v : v \in EnvVars)
 NV == Len(EnvSeq)
@@ -580,4 +605,5 @@ AsIsInvisible(D) ==
             LET r2 == Canon([r EXCEPT !.v = v]) IN Route(D, cfg, s, r2) = Route({}, cfg, s, r2)
 F19Invisible == AsIsInvisible({"F19"})
 F18Invisible == AsIsInvisible({"F18"})
+F33Invisible == AsIsInvisible({"F33"})
 =============================================================================
